@@ -14,15 +14,23 @@ COMPONENTS = {
         "all of chartparse (imported from the working tree)",
         "CPython io.BufferedReader / io.TextIOWrapper / codecs on top of the simulated raw device",
         "logging, the import system, functools caches, the interpreter (3.12)",
+        "threading.Condition / Event / Semaphore / RLock, queue.Queue, queue._PySimpleQueue and "
+        "concurrent.futures.ThreadPoolExecutor (real stdlib code on top of cooperative locks) when the "
+        "library under test uses them",
     ],
     "stub": [
         "raw byte device and file namespace (SimRaw / SimFS)",
         "scheduler decisions (who runs after each line event / operation boundary)",
         "log sink (handler on the 'chartparse' logger)",
         "caller threads' workload (generated operation histories)",
+        "threading.Lock / _allocate_lock (cooperative: blocking hands the baton to the scheduler), "
+        "Thread.start/join/is_alive for threads the library starts (adopted as scheduler clients), "
+        "threading._time / queue's clock / time.sleep for simulated threads (simulated time), "
+        "hash of Thread and Future objects made in a run (creation number instead of address)",
     ],
     "absent_in_system": [
-        "clocks, timers, deadlines", "network and peers", "writes / durability", "retries",
+        "clocks, timers, deadlines (none on the unchanged tree; timed waits of a library that has "
+        "them run in simulated time)", "network and peers", "writes / durability", "retries",
         "background work",
     ],
 }
